@@ -1131,6 +1131,35 @@ def c06_r1(ctx):
         pass
 
 
+@rule("C08.R5", floor=1)
+def c08_r5(ctx):
+    """A back-up that did not happen is never reported as done: in the cache's back-up functions
+    the Err edge of the rename (target -> cache entry) leads to an Err result; the only excuse
+    for Ok is a re-test showing that the *source* of the rename is gone - a test of the
+    destination says nothing about the file that was to be kept."""
+    n = 0
+    for f in prod(ctx.P):
+        if not f.body["span"]["file"].endswith("cache.rs") or "back_up" not in f.id:
+            continue
+        for c in sys_calls(f, "rename"):
+            n += 1
+            ctx.saw(f)
+            ctx.inst("back-up rename in %s" % f.id, c.where)
+            err_e = f.edges_of_call_variant(c, "Err")
+            src = f.origins_of_operand(c.args[1])
+            excuse = set()
+            for g in sys_calls(f, "is_file"):
+                if f.origins_of_operand(g.args[1]) == src:
+                    excuse |= f.bool_edges_of_call(g, False)
+            r = f.reach([x for (_, x) in err_e], avoid_edges=excuse)
+            oks = [(bb, idx) for (bb, idx, rv, pl) in f.constructs("std::result::Result", "Ok") if pl["local"] == 0 and bb in r]
+            if oks:
+                ctx.viol((f.id, "failed-backup-reported-done"), "a failed rename into the cache can be answered with Ok without the file to be kept having been found gone: the caller takes the path for free and overwrites what may be the last copy", f.where(oks[0][0], oks[0][1]))
+            else:
+                ctx.ok()
+    ctx.need(n >= 1, "the back-up rename of the cache")
+
+
 @rule("C06.R4", floor=0)
 def c06_r4(ctx):
     """Rule threads create nothing on a test-then-create basis: in code reachable from a rule
@@ -1186,6 +1215,14 @@ def c06_r3(ctx):
         guards = [g for g in sys_calls(f, "is_file") if f.origins_of_operand(g.args[1]) == src and
                   f.dominated_by_edges(c.bb, f.bool_edges_of_call(g, True))]
         if not guards:
+            if c.name == "rename" and not any(f.origins_of_operand(g.args[1]) == src for g in sys_calls(f, "is_file") if f.dominated_by_blocks(c.bb, [g.bb])):
+                # taking an entry out of the cache without having seen it: every plain miss then
+                # goes through "rename failed, look again", and an entry a sibling's back-up puts there
+                # in between turns the miss into a hard error
+                errv = _result_variants(f, [x for (_, x) in f.edges_of_call_variant(c, "Err")], deep=True)
+                if any("Error" in v for v in errv):
+                    ctx.viol((f.id, "unguarded-take", c.name), "a cache entry is renamed out without an `is_file` test before it: a miss is told from a real failure only by looking again after the rename failed, and a sibling thread that backs up a file with the same content in between makes the miss a hard error (%s)" % sorted(errv), c.where)
+                    continue
             ctx.ok()
             continue
         g = guards[0]
